@@ -259,14 +259,14 @@ def shrink(plugin, pid, r, budget_s=120):
 
 
 def write_replay(pid, kind, payload):
-    d = os.path.join(C.VERIF, "replays")
+    d = os.environ.get("VERIF_REPLAY_DIR") or os.path.join(C.VERIF, "replays")
     os.makedirs(d, exist_ok=True)
     h = C.case_hash(payload)
     path = os.path.join(d, "%s-%s.json" % (pid, h))
     payload = dict(payload, property=pid, kind=kind, repo=C.REPO)
     with open(path, "w") as f:
         json.dump(payload, f, indent=1, default=str)
-    return os.path.relpath(path, C.VERIF)
+    return os.path.relpath(path, C.VERIF) if path.startswith(C.VERIF + os.sep) else path
 
 
 # --------------------------------------------------------------------------
@@ -475,8 +475,9 @@ def check(pid, tier, seed, n_override=None):
             ev["coverage"].update(extra_ev(results))
         except Exception as e:
             ev["coverage"]["extra_evidence_error"] = repr(e)
-    os.makedirs(os.path.join(C.VERIF, "evidence"), exist_ok=True)
-    with open(os.path.join(C.VERIF, "evidence", pid + ".json"), "w") as f:
+    evdir = os.environ.get("VERIF_EVIDENCE_DIR") or os.path.join(C.VERIF, "evidence")   # scratch runs on mutants only
+    os.makedirs(evdir, exist_ok=True)
+    with open(os.path.join(evdir, pid + ".json"), "w") as f:
         json.dump(ev, f, indent=1, default=str)
 
     for l in out_lines:
